@@ -21,9 +21,9 @@ ANCHOR_FILES = ["quantem/core/utils/imaging_utils.py", "quantem/diffractive_imag
 RULE = (
     "seeded matrix: kind (itoh = wrapped smooth field, unwrapped = the smooth field itself, any = arbitrary input judged for 2pi-integrality only, "
     "bf = unwrap_bf_overlap_phase_torch embedding, reuse = one caller-owned tensor used for 3-4 calls with different masks / wrap_around, poisson = recorded only) x field family (ramp, quadratic, Gaussian bumps, band-limited random, "
-    "periodic sines, ramp + bounded jitter) x mask class (none, blob, holes, multi-component, single pixels, diagonal-only contacts, seam-connected, "
+    "periodic sines, ramp + bounded jitter, hierarchical-curvature ramps built to force the deepest union-find trees) x mask class (none, blob, holes, multi-component, single pixels, diagonal-only contacts, seam-connected, "
     "one-pixel-wide serpentine and spiral paths) x wrap_around x "
-    "grid size class (tiny 1..3 rows/cols, small, medium, large up to 40, long = 1..3 x 60..300) x max neighbour difference in {0.5,1,2,2.8}; disconnected regions get "
+    "grid size class (tiny 1..3 rows/cols, small, medium, large up to 40, long = 1..3 x 60..1200) x max neighbour difference in {0.5,1,2,2.8}; disconnected regions get "
     "independent arbitrary offsets. non-trivial = the true field crosses at least one 2pi boundary inside a region (a wrap must be undone) and, "
     "if masked, the mask has >= 2 regions or a hole; distinct = (kind, family, mask class, wrap_around, size class)"
 )
@@ -38,7 +38,7 @@ BUDGET = {"quick": {"soft_s": 150}, "thorough": {"soft_s": 900}}
 MIN_EVALUATIONS = {"quick": 2000, "thorough": 12000}
 REQUIRED_COUNTERS = ["eval:not_constant_on_region", "eval:non_integer_multiple", "eval:unwrapped_input_changed", "eval:bf_not_constant_on_region", "eval:argument_modified"]
 
-FAMILIES = ["ramp", "quadratic", "bumps", "bandlimited", "sines", "jitter_ramp"]
+FAMILIES = ["ramp", "quadratic", "bumps", "bandlimited", "sines", "jitter_ramp", "hierarchical"]
 PERIODIC = ("bandlimited", "sines")
 MASKS = ["none", "blob", "holes", "multi", "singles", "diagonal", "seam", "serpentine", "spiral"]
 PATH_MASKS = ("serpentine", "spiral")  # one-pixel-wide paths: long chains, deep union-find trees
@@ -55,7 +55,7 @@ def plan(tier, seed):
     def size():
         return SIZES[int(rng.choice(5, p=[0.12, 0.30, 0.30, 0.13, 0.15]))]
 
-    reps = 10 if quick else 200
+    reps = 10 if quick else 120
     for fam, mask, wrap in itertools.product(FAMILIES, MASKS, [True, False]):
         if wrap and mask == "none" and fam not in PERIODIC:
             continue  # the seam edges would be the only large differences: scaled to a trivial field
@@ -73,6 +73,10 @@ def plan(tier, seed):
     for fam, lens, two_pass, wrap in itertools.product(FAMILIES, ["lens", "lens_holes", "two_lobes", "full"], [True, False], ["default", False]):
         for r in range(reps):
             specs.append({"kind": "bf", "family": fam, "mask": lens, "two_pass": two_pass, "wrap": wrap, "size": ["small", "medium"][int(rng.integers(2))], "target": TARGETS[int(rng.integers(1, 4))]})
+    # long thin grids (1..3 x 60..1200): long chains, the deepest union-find trees (depth is recorded per case)
+    for fam, mask in itertools.product(["hierarchical", "jitter_ramp", "quadratic", "bandlimited"], ["none", "serpentine", "spiral", "holes"]):
+        for r in range(reps):
+            specs.append({"kind": "itoh", "family": fam, "mask": mask, "wrap": False, "size": "long", "target": TARGETS[int(rng.integers(1, 4))]})
     # the same caller-owned tensor is used for several calls (other mask / no mask / other wrap_around)
     for fam, wrap in itertools.product(FAMILIES, [True, False]):
         if wrap and fam not in PERIODIC:
@@ -188,7 +192,7 @@ def _shape(rng, size):
         return (a, b) if rng.random() < 0.5 else (b, a)
     if size == "long":
         a = int(rng.integers(1, 4))
-        b = int(rng.integers(60, 301))
+        b = int(rng.integers(60, 301)) if rng.random() < 0.85 else int(rng.integers(301, 1201))
         return (a, b) if rng.random() < 0.5 else (b, a)
     lo, hi = {"small": (4, 10), "medium": (11, 24), "large": (25, 40)}[size]
     H = int(rng.integers(lo, hi + 1))
@@ -212,6 +216,24 @@ def _field(rng, fam, H, W):
             s = rng.uniform(0.1, 0.5) * max(H, W, 3)
             f += rng.normal() * np.exp(-((x - cx) ** 2 + (y - cy) ** 2) / (2 * s * s))
         return f + 0.05 * rng.normal() * x
+    if fam == "hierarchical":
+        # curvature |s_j| grows with the 2-adic valuation of j along the long axis, so the reliability order
+        # merges pairs, then quadruples, ... : equal-rank unions at every level, i.e. union-find trees of
+        # depth ~log2(N) (the deepest union by rank can produce); the slope stays inside a band around d0
+        L = max(H, W)
+        off = int(rng.integers(0, 64))
+        c = rng.uniform(0.04, 0.12)
+        d0 = rng.uniform(0.5, 1.3) * (1 if rng.random() < 0.5 else -1)
+        line = np.zeros(L)
+        d = d0
+        for j in range(1, L):
+            line[j] = line[j - 1] + d
+            k = j + off
+            nu = (k & -k).bit_length() - 1 if k else 0
+            sj = c * (nu + 1)
+            d += -sj if d > d0 else sj
+        across = rng.normal() * 0.3
+        return (line[None, :] + across * y) if W >= H else (line[:, None] + across * x)
     if fam == "jitter_ramp":  # ramp plus bounded sample-to-sample jitter (random reliability order)
         a, b = rng.normal(size=2)
         return a * x + b * y + rng.uniform(-0.5, 0.5, size=(H, W)) * rng.uniform(0.3, 1.5) * max(abs(a), abs(b), 0.1)
@@ -296,13 +318,13 @@ def _mask(rng, cls, H, W):
         m[i, j] = True
         di, dj = 0, 1
         lim = [top, left, bottom, right]
-        turns_without_move = 0
-        while turns_without_move < 2:
+        turns_without_move, steps = 0, 0
+        while turns_without_move < 2 and steps < 4 * (H + W):
             moved = False
             while True:
                 a, b = i + di, j + dj
                 a2, b2 = a + di, b + dj
-                if not (lim[0] <= a <= lim[2] and lim[1] <= b <= lim[3]):
+                if not (lim[0] <= a <= lim[2] and lim[1] <= b <= lim[3]) or m[a, b]:
                     break
                 if lim[0] <= a2 <= lim[2] and lim[1] <= b2 <= lim[3] and m[a2, b2]:
                     break  # keep a one-pixel gap to the previous turn
@@ -310,6 +332,7 @@ def _mask(rng, cls, H, W):
                 m[i, j] = True
                 moved = True
             di, dj = dj, -di  # turn right
+            steps += 1
             turns_without_move = 0 if moved else turns_without_move + 1
     else:  # seam: connected only through the periodic boundary
         m = np.zeros((H, W), bool)
